@@ -17,7 +17,7 @@ void free(void *);
 void abort(void);
 void exit(int);
 }
-#define VSTL_REQ(c, msg) __CPROVER_assert((c), "vstl.pre: " msg)
+#define VSTL_REQ(c, msg) do { __CPROVER_assert((c), "vstl.pre: " msg); __CPROVER_assume(c); } while (0)
 #ifndef VSTL_STR_CAP
 #define VSTL_STR_CAP 8
 #endif
